@@ -70,6 +70,10 @@ func init() {
 		if n < 1<<uint(cw) {
 			ip.ex.Assume(ip.ts.Cmp(OpUlt, v, Const(cw, uint64(n))))
 		}
+		if f, ok := ip.ex.params["force."+name]; ok {
+			// job-level sharding: this choice is fixed by the job table
+			ip.ex.Assume(ip.ts.Eq(v, Const(cw, uint64(f))))
+		}
 		x := ip.ex.Concretize(v, "choice "+name)
 		return Const(64, x)
 	})
